@@ -73,10 +73,10 @@ let tok_of_sexp (x : Sexp.t) : tok =
     let text = Gen_prog.string_of_hex (atom h) in
     { tstart = nat_of_int (int s); tend = nat_of_int (int e);
       tv = TIdent (List.map (fun (_, cp, _) -> n_of_int cp) (utf8_decode text)) }
-  | L [ A "KIntegerLiteral"; s; e; z ] -> { tstart = nat_of_int (int s); tend = nat_of_int (int e); tv = TLit0 (z_of_string (atom z)) }
+  | L [ A "KIntegerLiteral"; s; e; z ] -> { tstart = nat_of_int (int s); tend = nat_of_int (int e); tv = TNum (z_of_string (atom z)) }
   | L [ A k; s; e ] -> { tstart = nat_of_int (int s); tend = nat_of_int (int e); tv = TK (kind_of_name k) }
   | _ -> raise (Parse_error ("bad token " ^ Sexp.to_string x))
 
 let show_tok (t : tok) : string =
-  Printf.sprintf "%s[%d,%d)" (match t.tv with TK k -> name_of_kind k | TIdent _ -> "ident" | TLit0 z -> "lit " ^ string_of_z z)
+  Printf.sprintf "%s[%d,%d)" (match t.tv with TK k -> name_of_kind k | TIdent _ -> "ident" | TNum z -> "lit " ^ string_of_z z)
     (int_of_nat t.tstart) (int_of_nat t.tend)
